@@ -52,6 +52,12 @@ claim("C19", "exploration",
   "deterministic simulation: tape-driven derivation trees vs persistent-value model, structural fingerprint + guest-observed refinement after every step",
   "DESIGN.md §5 C19")
 
+claim("C18", "exploration",
+  "Seeded simulation of WASI scripts (20-200 calls over all exported functions incl. one-hour polls) against a default-configured guest; the byte-exact trace must be identical across two instances per engine, both engines, and child OS processes started with hostile environments (env, args, cwd, TZ, data on the real stdin, GOMAXPROCS, start time); direct closure checks (no args/env/preopens, stdin at EOF, fixed clock origins) and a marker written to fd 1/2 must not reach the process's real stdout/stderr; a real sleep is caught by the watchdog. Sampling of programs and environments.",
+  "Trusted: the trace recorder; error results compared by first line; the set of host-environment variations tried is a sample.",
+  "deterministic simulation: seeded WASI scripts replayed across instances, engines and hostile child-process environments; trace equality + closure invariants",
+  "DESIGN.md §5 C18")
+
 def main():
     m = dict(version=1,
       setup_cmd="./setup.sh",
